@@ -44,12 +44,13 @@ pub open spec fn acc_rel(cs: Seq<Energy>, cs2: Seq<Energy>, i: int, i2: int, c: 
 pub open spec fn sel_same(cs: Seq<Energy>, cs2: Seq<Energy>) -> bool {
     forall|k: Sel| #[trigger] any_sel(cs2, k) == any_sel(cs, k)
 }
-/// same tags (kind, carrier / source, service, system), values left open
+/// same tags (kind, carrier / source, service); the values, the comment and the system id are left open: the balance of an already
+/// normalized component list does not look at system ids at all (they matter to Components::normalize only)
 pub open spec fn same_tags(a: Energy, b: Energy) -> bool {
-    ||| (a is Prod && b is Prod && a->Prod_0.id == b->Prod_0.id && a->Prod_0.source == b->Prod_0.source)
-    ||| (a is Used && b is Used && a->Used_0.id == b->Used_0.id && a->Used_0.carrier == b->Used_0.carrier && a->Used_0.service == b->Used_0.service)
-    ||| (a is Aux && b is Aux && a->Aux_0.id == b->Aux_0.id && a->Aux_0.service == b->Aux_0.service)
-    ||| (a is Out && b is Out && a->Out_0.id == b->Out_0.id && a->Out_0.service == b->Out_0.service)
+    ||| (a is Prod && b is Prod && a->Prod_0.source == b->Prod_0.source)
+    ||| (a is Used && b is Used && a->Used_0.carrier == b->Used_0.carrier && a->Used_0.service == b->Used_0.service)
+    ||| (a is Aux && b is Aux && a->Aux_0.service == b->Aux_0.service)
+    ||| (a is Out && b is Out && a->Out_0.service == b->Out_0.service)
 }
 pub open spec fn tags_same(cs: Seq<Energy>, cs2: Seq<Energy>) -> bool {
     cs.len() == cs2.len() && forall|j: int| 0 <= j < cs.len() ==> same_tags(#[trigger] cs[j], cs2[j])
